@@ -2,6 +2,7 @@ package udp
 
 import (
 	"context"
+	"errors"
 	"net"
 	"sync"
 	"time"
@@ -9,6 +10,12 @@ import (
 	"github.com/postalsys/muti-metroo/internal/crypto"
 	"github.com/postalsys/muti-metroo/internal/identity"
 )
+
+// ErrAssociationClosed is returned by Encrypt and Decrypt once the
+// association has been closed. Close drops the session key; without this
+// check a datagram still in flight in readLoop would fall into the
+// "no session key" branch and leave the exit unencrypted.
+var ErrAssociationClosed = errors.New("UDP association closed")
 
 // AssociationState represents the state of a UDP association.
 type AssociationState int
@@ -204,6 +211,10 @@ func (a *Association) Encrypt(plaintext []byte) ([]byte, error) {
 	a.mu.RLock()
 	defer a.mu.RUnlock()
 
+	if a.closed {
+		return nil, ErrAssociationClosed
+	}
+
 	if a.SessionKey == nil {
 		return plaintext, nil
 	}
@@ -218,6 +229,10 @@ func (a *Association) Encrypt(plaintext []byte) ([]byte, error) {
 func (a *Association) Decrypt(ciphertext []byte) ([]byte, error) {
 	a.mu.RLock()
 	defer a.mu.RUnlock()
+
+	if a.closed {
+		return nil, ErrAssociationClosed
+	}
 
 	if a.SessionKey == nil {
 		return ciphertext, nil
